@@ -13,6 +13,16 @@
 (* environment is quiet, becomes equal to it; plain follow ends the stream      *)
 (* after the removal (and not before), re-open follow never ends it.            *)
 (*                                                                              *)
+(* THE PATH AND ITS NEIGHBOURS.  `cur` is the file the followed path RESOLVES   *)
+(* TO: the path may be the file's own name or a symbolic link to it (in the same *)
+(* or another directory) - the specification does not distinguish the two, so   *)
+(* "the size of the path" in any implementation is the size of what the path     *)
+(* leads to, never a property of the link.  Everything else that lives in the   *)
+(* directory - files whose names are extensions, prefixes or suffixes of the     *)
+(* followed name, created, appended to, renamed among themselves, removed - is   *)
+(* EnvOther: it changes nothing the property talks about (law OthersInvisible in *)
+(* FollowNotify.tla: the reader takes no event of another path for its own).     *)
+(*                                                                              *)
 (* `dom` is the explicit DOMAIN of the demands.  It is left only in poll +      *)
 (* re-open mode, when a re-created file is not "still shorter than what was     *)
 (* already delivered when the poller notices it".  The moment of noticing is    *)
@@ -86,6 +96,10 @@ EnvCreate ==
   /\ dom' = (dom /\ ~Breaks(files', cur', TRUE))
   /\ UNCHANGED <<mode, start, delivered, ended>>
 
+\* any operation on ANOTHER path of the directory (a sibling is created, appended to, renamed to another
+\* sibling name, removed): invisible - nothing the property talks about changes
+EnvOther == UNCHANGED <<mode, files, cur, start, delivered, ended, fresh, dom>>
+
 \* reader: the effect of a delivery on the observation variables (used by the
 \* implementation-shaped models, which must NOT inherit the guard)
 DeliverEffect(data) ==
@@ -113,7 +127,7 @@ DeliverAny ==
   /\ IsPrefixOf(delivered, delivered') /\ delivered' # delivered
   /\ Deliver(SubSeq(delivered', Len(delivered) + 1, Len(delivered')))
 
-ANext == EnvAppendAny \/ EnvRemove \/ EnvCreate \/ DeliverAny \/ End
+ANext == EnvAppendAny \/ EnvRemove \/ EnvCreate \/ EnvOther \/ DeliverAny \/ End
 ASpec == (\E m \in [poll : BOOLEAN, reopen : BOOLEAN, tail : BOOLEAN] :
            \E init \in Seq(0..255) : AInit(m, init)) /\ [][ANext]_avars
 \* safety part as an action formula over given initial states
